@@ -167,7 +167,14 @@ def smooth_cases(ctx, rnd, focus):
         if len(got) > budget:
             got = rnd.sample(got, budget)
         for e in got:
-            rs = RScreen([(x["s"], tuple(x["ts"]), x["pl"], False) for x in e["rows"]])
+            relabel = {}
+            if e["op"] in ("mergemin", "mergetb"):
+                # TLC explores size profiles up to the order of the plates; the order in which the real screen lists them (by name)
+                # is a free choice of the input: permute the labels within each sample
+                for smp in {x["s"] for x in e["rows"]}:
+                    labs = sorted({x["pl"] for x in e["rows"] if x["s"] == smp})
+                    relabel.update(dict(zip(labs, rnd.sample(labs, len(labs)))))
+            rs = RScreen([(x["s"], tuple(x["ts"]), relabel.get(x["pl"], x["pl"]), False) for x in e["rows"]])
             out.append((e["op"], rs, (e["param"],) if e["op"] != "optimal" and e["op"] != "combofilter" else ()))
     if focus == "C13":
         # the counterexample TLC finds when only distinct plate sizes are scored is among the inputs (vacuity of 'retains the most')
